@@ -55,6 +55,9 @@ type Plan struct {
 	Script  []ExtOp     `json:"script"`
 	Latency []int       `json:"latency"`
 	Deliv   []int       `json:"deliv"`
+	// DupReg: at DupReg[1] ms somebody tries to register another controller under the name of probe DupReg[0] (same
+	// flavour, its initial declarations): the attempt must be refused, and the probe keeps being woken (nil = never)
+	DupReg []int `json:"dupreg,omitempty"`
 }
 
 var (
@@ -260,6 +263,10 @@ func Gen(t *rapid.T) Plan {
 		p.Probes = append(p.Probes, ps)
 	}
 
+	if rapid.IntRange(0, 3).Draw(t, "hasdupreg") == 0 {
+		p.DupReg = []int{rapid.IntRange(0, len(p.Probes)-1).Draw(t, "dupreg-probe"), rapid.IntRange(0, 2500).Draw(t, "dupreg-at")}
+	}
+
 	p.Cached = rapid.SliceOfNDistinct(rapid.IntRange(0, 2), 0, 2, rapid.ID[int]).Draw(t, "cached")
 	p.Pre = GenOps(t, "pre", 0, 6, 0)
 	p.Script = GenOps(t, "script", 4, 40, 3000)
@@ -418,6 +425,10 @@ func runBubble(p Plan) (v hk.Verdict) {
 		}
 	}
 
+	if len(p.DupReg) == 2 {
+		tl = append(tl, ev{at: p.DupReg[1], reg: -2 - p.DupReg[0]})
+	}
+
 	sort.SliceStable(tl, func(i, j int) bool { return tl[i].at < tl[j].at })
 
 	for _, e := range tl {
@@ -425,9 +436,32 @@ func runBubble(p Plan) (v hk.Verdict) {
 			time.Sleep(d)
 		}
 
-		if e.reg >= 0 {
+		switch {
+		case e.reg >= 0:
 			register(e.reg)
-		} else {
+		case e.reg <= -2:
+			// a second controller under a name that is taken (only once the first one is registered)
+			i := -2 - e.reg
+			if _, there := regLen[i]; !there || regErr[i] != nil {
+				continue
+			}
+
+			ps, name := p.Probes[i], "p"+strconv.Itoa(i)
+
+			var err error
+
+			if ps.Flavor == "plain" {
+				err = w.RT.RegisterController(&sim.PlainProbe{W: w, NameStr: name, Ins: ps.Ins})
+			} else {
+				err = w.RT.RegisterQController(&sim.QProbe{W: w, NameStr: name, Ins: ps.Ins, Conc: 1, Mapper: ps.Mapper})
+			}
+
+			if err == nil {
+				v.Failf("a second controller was registered under the name %s which is taken", name)
+			}
+
+			v.Label("duplicate-name-refused")
+		default:
 			Apply(w.Ctx, ext, e.op, e.n)
 		}
 	}
